@@ -397,9 +397,13 @@ class MasterWorld:
         kind = body[0]
         cfg = self.cfg
         admin = self.admin
+        self.just_submitted = None
         if kind == 'app+':
             t = cfg['templates'][body[1]]
+            before_ = set(self.children(z.SCHEDULED))
             masterapi.create_apps(admin, 'p.' + body[1], dict(t), 1)
+            new_ = sorted(set(self.children(z.SCHEDULED)) - before_)
+            self.just_submitted = new_[0] if len(new_) == 1 else None
             self.deliver(z.SCHEDULED)
         elif kind == 'app-':
             masterapi.delete_apps(admin, [self.live()[body[1]]])
